@@ -308,6 +308,12 @@ def mutate (d : DState) (p : Pending) (pre : Pre) (t : Tx) (cls : String) (args 
     let j ← idxArg args 0
     if j ≥ t.cin.length then none
     pure' { t with ins := t.ins.set j 1000000 }
+  -- declared contract input number j is dropped and the real input spending it is replaced by an output of the
+  -- initiator: the transaction balances, but the declared contract inputs no longer cover the transfers
+  | "ishort", _ => do
+    let j ← idxArg args 0
+    if j ≥ t.cin.length then none
+    pure' { t with cin := t.cin.eraseIdx j, ins := t.ins.eraseIdx j ++ [1000000] }
   | "evt", [] => if t.ev == [] then none else pure' { t with ev := [999] }
   | "evdrop", [] => if t.ev == [] then none else pure' { t with ev := [] }
   -- no requests, no reads, only the transient entries of the write set: re-executing nothing produces nothing
